@@ -150,6 +150,30 @@ theorem pattern_value (env : VarEnv) :
   · simp [hq, Word.subst, Q, SQ]
   · simp [hq, Word.subst, Q, flatMap_escQ_of_no_quote _ hq, SQ]
 
+/-- `-*'*` (xzdiff's guard): a dash followed by anything that contains a quote. -/
+theorem globMatch_dash_star_quote_star (w : Bytes) :
+    globMatch [.cls false [45], .star, .cls false [39], .star] (45 :: w) = w.contains 39 := by
+  have h : globMatch [.cls false [45], .star, .cls false [39], .star] (45 :: w)
+      = (([45] : Bytes).contains 45 != false && globMatch [.star, .cls false [39], .star] w) := by simp only [globMatch]
+  rw [h, globMatch_star_lit_star]; simp
+
+/-- **xzdiff option quoting.** Every option of xzdiff/xzcmp (an argument that starts with `-`) is appended to `$cmp`
+    in the canonical quoted form, whichever of the two arms (`-*'*` escaping, `-?*` plain) takes it. -/
+theorem xzdiff_option_value (env : VarEnv) (w : Bytes) (hv : env vOne = 45 :: w) :
+    diffSite.value diffEscapeSrc env = some (env [99, 109, 112] ++ SP :: Q (45 :: w)) := by
+  have hg : parseAlts diffSite.guard = some [[.cls false [45], .star, .cls false [39], .star]] := by decide
+  have hf : litWord diffSite.fmt = some [37, 115, 88, 92, 110] := by decide
+  have hpre : shWords diffSite.pre = .ok [[.var [99, 109, 112], .lit [32, 39]]] := by decide
+  have hplain : shWords diffSite.plain = .ok [[.var [99, 109, 112], .lit [32, 39], .var vOne, .lit [39]]] := by decide
+  have hvar : diffSite.var = vOne := rfl
+  unfold QuoteSite.value
+  simp only [hvar, hv, caseMatch, hg, Option.map_some, List.any_cons, List.any_nil, Bool.or_false,
+    globMatch_dash_star_quote_star, Option.bind_eq_bind, Option.bind_some]
+  by_cases hq : (39 : UInt8) ∈ w
+  · simp [hq, evalWordSrc, hpre, escape_subst_value _ _ escape_program_xzdiff hf, Word.subst, Q, hv, SQ, SP, escQ]
+  · have hq' : SQ ∉ (45 :: w : Bytes) := by simp [SQ, hq]
+    simp [hq, evalWordSrc, hplain, Word.subst, Q, hv, flatMap_escQ_of_no_quote _ hq', SQ, SP]
+
 /-! ## operands and the grep command line, as `eval` reads them -/
 
 /-- The variable `operands` after the option loop has met the operands `ops`, in order (script site at
